@@ -168,6 +168,15 @@ func runC15(r *rt.Run) {
 			brgs = append(brgs, math.Mod(c+e, 360), math.Mod(c-e+360, 360))
 		}
 	}
+	// the floats next to every multiple of 7.5 degrees (where a reduction of the
+	// bearing to a quadrant or an octant changes branch)
+	for b := 0.0; b < 360; b += 7.5 {
+		if b > 0 {
+			brgs = append(brgs, math.Nextafter(b, 0))
+		}
+		brgs = append(brgs, math.Nextafter(b, 360))
+	}
+	brgs = append(brgs, math.Nextafter(360, 0))
 	dists := []float64{0, 1e-3, 1, 10, 1e3, 1e5, 1e6, 5e6, 1e7, 1.5e7, 2e7, piR - 1}
 	// hops below and around a millimetre (the result must still be a location:
 	// started on the antimeridian they have to wrap)
